@@ -15,8 +15,12 @@ pub mod c07;
 pub mod c08;
 pub mod c10;
 pub mod c11;
+pub mod c13;
+pub mod c15;
+pub mod c18;
 pub mod harvest;
 pub mod c16;
+pub mod c17;
 
 pub fn run_check(id: &str, ctx: &Ctx) -> Option<Report> {
     Some(match id {
@@ -30,9 +34,24 @@ pub fn run_check(id: &str, ctx: &Ctx) -> Option<Report> {
         "C08" => c08::run(ctx),
         "C10" => c10::run(ctx),
         "C11" => c11::run(ctx),
+        "C13" => c13::run(ctx),
+        "C15" => c15::run(ctx),
+        "C18" => c18::run(ctx),
         "C16" => c16::run(ctx),
+        "C17" => c17::run(ctx),
         _ => return None,
     })
+}
+
+/// property-specific judges over the recorded history (used by replay too)
+pub fn extra_judge(id: &str) -> Option<fn(&World, &RunResult) -> Vec<Violation>> {
+    match id {
+        "C07" => Some(c07::judge),
+        "C08" => Some(c08::judge),
+        "C15" => Some(c15::judge),
+        "C16" => Some(c16::judge),
+        _ => None,
+    }
 }
 
 /// clauses of Model A / the executor that a property's check owns
@@ -46,7 +65,11 @@ pub fn own_clauses(id: &str) -> &'static [&'static str] {
         "C06" => c06::OWN,
         "C07" => c07::OWN,
         "C08" => c08::OWN,
+        "C13" => c13::OWN,
+        "C15" => c15::OWN,
+        "C18" => c18::OWN,
         "C16" => c16::OWN,
+        "C17" => c17::OWN,
         _ => &[],
     }
 }
